@@ -69,6 +69,23 @@ CLAIMED = {
             "Heap: measured on the real code (wrapped allocator): one mixed round repeated 1, 10, 100 times ends with identical live-block and descriptor counts, 0 after release; 2 descriptors after every operation.",
             NOTE + "Partial for memory: not expressible in the model (objects are values), measured instead. Two descriptor leaks on error paths that stop the daemon (load_linq after a failed read_entry; reload when the new journal cannot be opened) are stated exactly in the theorems.",
             "call-log counting judgement for all oracles; measurement on the implementation + correspondence"),
+    "C07": ("Theorems: the pid table is a set for process ids of any magnitude and any initial size (marked iff the last operation was a set); after any sequence of execution events the table "
+            "marks exactly the processes the property's wording calls editors and the recorded loaders are the interpreters of the editor binaries seen; non-editor writes are queued only when an "
+            "included/history entry decides, editor writes unless hidden/excluded decides. Tie: the real bit table on random sequences (pids up to 2^22, sizes from 0), and the real handler on "
+            "exec/write histories with editor scripts, ELF editors with PT_INTERP, their loaders and non-editors.",
+            NOTE + "The pure attribution step is tied to handle_open_exec by the correspondence, not by a refinement lemma.", "induction over event histories; differential correspondence + attribution monitor"),
+    "C12": ("Theorems over the model of main(): for every command line, mount table, ownership and every combination of failing or ineffective stat/setgroups/setgid/setuid, main's actions are a "
+            "start-up phase with no handler load, poll or dispatch, followed by an exit or by loading the handler with non-zero uid, non-zero gid and no supplementary groups; started as root any "
+            "bad condition means the handler is never loaded. Tie: the real main() with every call scripted, exhaustively over stat outcome x 27 switch behaviours x 5 initial credentials.",
+            NOTE + "Kernel credential semantics as scripted state machine (uid, gid, number of groups).", "structural theorem over the model of main; exhaustive differential correspondence + order monitor"),
+    "C17": ("Theorems over the loop model: a good notification causes exactly one dispatch by kind, one close, one queue service, and the next sleep is what was asked (ms = 1000*s up to INT_MAX/1000, clamped, "
+            "negative = indefinite); self writes ignored; poll failure, POLLHUP, failed/short read, bad version, overflow stop the daemon without dispatch; handler failures reported after the close. "
+            "Tie: the real main() with poll/read/close and handler entry points scripted, all scripts of up to 2 (3) slots over 15 slot kinds.",
+            NOTE, "equational characterisation of the loop; exhaustive differential correspondence + slot-by-slot monitor"),
+    "C18": ("Theorems: a malformed command line exits before anything is mounted or watched; defaults (grammar equivalence, common parent = deepest common directory, mount iff not mounted: ParamsProofs). "
+            "Tie: every argv up to length 4 (5) over 11 tokens through the real parser against a reference parser of the documented grammar; all pairs of 11 paths through "
+            "get_common_parent_path_length; the real main() on every sequence of 1-3 roots with random mount tables.",
+            NOTE + "Not modelled: octal escapes in /proc/self/mounts; realpath is scripted.", "grammar equivalence + path lemmas; exhaustive differential correspondence + reference parser"),
 }
 ENGINE = "coq-model+correspondence"
 
